@@ -109,6 +109,7 @@ def shards(tier):
     sh = [dict(tier=tier, kind="files", idx=list(range(i, len(C), n))) for i in range(n)]
     sh.append(dict(tier=tier, kind="stdout"))
     sh.append(dict(tier=tier, kind="two-outputs"))
+    sh.append(dict(tier=tier, kind="filter-layouts"))
     return sh
 
 
@@ -154,7 +155,7 @@ def run_config(c, wd, use_cache=True):
         r = clih.run_cli(argv)
         ex, errs = r.exit, (r.errors()[:1] or [r.exc])
     else:
-        sched, val, exc = vmp.run(lambda: clih.run_cli(argv))
+        sched, val, exc = vmp.run(lambda: clih.run_cli(argv), policy="fair")
         if sched.deadlock:
             return "DEADLOCK", {}, argv, [sched.deadlock]
         ex = val.exit if val is not None else "EXC"
@@ -193,6 +194,10 @@ def run_shard(d):
         return res
     if d["kind"] == "two-outputs":
         do_two_outputs(wd, res)
+        clih.rmtree(wd)
+        return res
+    if d["kind"] == "filter-layouts":
+        do_filter_layouts(wd, res)
         clih.rmtree(wd)
         return res
     C = configurations(d["tier"])
@@ -279,7 +284,7 @@ def do_two_outputs(wd, res):
                     r = clih.run_cli(argv)
                     ex = r.exit
                 else:
-                    sched, val, exc = vmp.run(lambda: clih.run_cli(argv))
+                    sched, val, exc = vmp.run(lambda: clih.run_cli(argv), policy="fair")
                     ex = val.exit if val is not None and not sched.deadlock else "FAILED"
                 shown = [a if not a.startswith("/") else os.path.basename(a) for a in argv]
                 if ex != 0:
@@ -297,6 +302,65 @@ def do_two_outputs(wd, res):
                     ref = got
                 elif got != ref:
                     V.append(("two-outputs:records", "records differ between naming variants of the same run", dict(argv=shown)))
+
+
+def do_filter_layouts(wd, res):
+    """The layout of every output is the one its own options ask for: a filter output given as two files stays two files when
+    the main output is interleaved, and the other way round; the records never depend on the layouts."""
+    V = res["viol"]
+    ind, outd = os.path.join(wd, "in"), os.path.join(wd, "out")
+    os.makedirs(ind, exist_ok=True)
+    os.makedirs(outd, exist_ok=True)
+    ref = None
+    for in_layout in ("paired", "interleaved"):
+        paths = write_inputs(ind, "fastq", in_layout, "plain")
+        for main_il in (False, True):
+            for filt_il in (False, True):
+                for cores in (1, 2):
+                    mcharness.clear_dir(outd)
+                    o1, o2 = os.path.join(outd, "m1.fq"), os.path.join(outd, "m2.fq")
+                    s1, s2 = os.path.join(outd, "s1.fq"), os.path.join(outd, "s2.fq")
+                    u1, u2 = os.path.join(outd, "u1.fq"), os.path.join(outd, "u2.fq")
+                    argv = (["-j", "2", "--buffer-size", "500"] if cores > 1 else []) + ["-a", "ad=ACGTACGG", "-A", "bd=ACGTACGG", "-m", "12"]
+                    argv += ["--interleaved", "-o", o1] if (main_il or in_layout == "interleaved") else ["-o", o1]
+                    if not main_il:
+                        argv += ["-p", o2]
+                    argv += ["--too-short-output", s1] + ([] if filt_il else ["--too-short-paired-output", s2])
+                    argv += ["--untrimmed-output", u1] + ([] if filt_il else ["--untrimmed-paired-output", u2])
+                    argv += paths
+                    res["evals"] += 1
+                    res["nontrivial"] += 1
+                    if cores == 1:
+                        r = clih.run_cli(argv)
+                        ex = r.exit
+                    else:
+                        sched, val, exc = vmp.run(lambda: clih.run_cli(argv), policy="fair")
+                        ex = val.exit if val is not None and not sched.deadlock else "FAILED"
+                    shown = [a if not a.startswith("/") else os.path.basename(a) for a in argv]
+                    if ex != 0:
+                        if ex == 2:
+                            continue  # combination rejected by the command line
+                        V.append(("layouts:failed", f"run failed: {ex}", dict(argv=shown)))
+                        continue
+                    got = {}
+                    for role, a, b, il in (("main", o1, o2, main_il), ("short", s1, s2, filt_il), ("untr", u1, u2, filt_il)):
+                        if not os.path.exists(a) or (not il and not os.path.exists(b)):
+                            V.append((f"layouts:missing:{role}", f"output file for {role} was not created", dict(argv=shown)))
+                            got[role] = None
+                            continue
+                        ra = records_of(a)[1]
+                        if il:
+                            if os.path.exists(b):
+                                V.append((f"layouts:extra:{role}", "second file written although interleaved output was asked for", dict(argv=shown)))
+                            got[role] = ([x[:2] for x in ra[0::2]], [x[:2] for x in ra[1::2]])
+                        else:
+                            got[role] = ([x[:2] for x in ra], [x[:2] for x in records_of(b)[1]])
+                    if ref is None:
+                        ref = got
+                    elif got != ref and None not in got.values():
+                        role = next(k for k in got if got[k] != ref[k])
+                        V.append((f"layouts:records:{role}", f"records of the {role} output depend on the output layouts "
+                                  f"({len(got[role][0])}/{len(got[role][1])} vs {len(ref[role][0])}/{len(ref[role][1])} records)", dict(argv=shown)))
 
 
 def do_stdout(wd, res):
